@@ -13,7 +13,7 @@ use serde_json::Value;
 pub const META: PropMeta = PropMeta {
     level: "exploration",
     rule: "movies with a udta/meta/ilst built by the independent reference encoder: every subset of {title, year, poster, summary} x text / 4-byte binary year x payload lengths {0, short, multi-byte UTF-8, long, 64 KiB} x 0..5 unknown items and unknown atoms inside items and udta x handler 'mdir' or other x ISO (FullBox) or QuickTime style meta x hdlr before/after ilst x meta without ilst x no udta at all, item order shuffled. Oracle: accessors equal the encoded values / None for absent; metamorphic: stripping every unknown item and atom leaves all four answers unchanged. Non-trivial = (>=1 known item together with >=1 unknown item) or an absence case (other handler, no ilst, no udta, item missing). Distinct = hash of the metadata description.",
-    assumptions: &["year encodings the statement does not define (non-decimal text, binary of length != 4) are not asserted", "text payloads are valid UTF-8"],
+    assumptions: &["a year item that is neither decimal text nor a 4-byte binary value (binary of another length, non-numeric text) does not encode a year in either of the two forms the statement names: absence is expected", "text payloads are valid UTF-8"],
 };
 
 #[derive(Clone, Debug, Serialize, Deserialize)]
